@@ -16,6 +16,9 @@
 (*   calls   one record per call(): k = index in enq of its item (0 = refused), out =       *)
 (*           "val" | "WCE" | "Empty" | "raised:X", v = value returned, nread = number of    *)
 (*           valid results read before, late = "T" iff after close/observed death           *)
+(*   bempty  one record per BLOCKING next_result()/results_iter() step that signalled the    *)
+(*           end of the stream (raised queue.Empty): nread = valid results read before it,  *)
+(*           nenq = enqueues accepted before it                                             *)
 (*   first   outcome of the first enqueue attempted before any close/death ("none" if none) *)
 (*   alive0  is_alive() immediately after construction / restart                            *)
 (*   waited  "T" iff the final wait() returned True ("none": not the last incarnation)      *)
@@ -73,6 +76,11 @@ C05_Count(r) == LET I == LastInc(r) IN
       /\ Len(Valid(I.raw)) = Len(I.enq)
       /\ Len(Ends(I.raw)) = 1
       /\ I.raw[Len(I.raw)].f = "F"
+
+\* a blocking read signals the end of the stream only when every accepted enqueue has been delivered
+\* (close() only says that no more input comes: the child may still owe results)
+C05_End(r) == \A i \in 1..Len(Incs(r)) : LET I == Incs(r)[i] IN
+   I.fault = "none" => \A j \in 1..Len(I.bempty) : I.bempty[j].nread = I.bempty[j].nenq
 
 \* enqueue after close() or after death raises WorkerClosedError
 C05_Closed(r) == \A i \in 1..Len(Incs(r)) : \A j \in 1..Len(Incs(r)[i].late) : Incs(r)[i].late[j] = "WCE"
